@@ -42,7 +42,152 @@ Theorem c13_idempotent_with_aggregates : forall (I : interp) swap arities P pl f
   rows st2 = rows st1.
 Proof. intros I swap. exact (rerun_idempotent_agg I swap (eval_variant_spec_agg I swap)). Qed.
 
-(* PARTIAL: "equal lattice values" for lattice relations is not a theorem here (C03's model is separate); lattice
-   and BYODS programs are exercised by their own ties. *)
+(* Lattice relations: "equal lattice values" and monotone re-runs are the theorems c13_lattice_* at the end of this
+   file, about C03's lattice engine model (programs mixing relations and lattices, no aggregation / negation).
+   PARTIAL (what is still not a theorem here): programs that combine lattices WITH aggregation / negation, BYODS
+   relations and the parallel engine are exercised by their ties only; the lattice theorems need the runs to
+   terminate within the fuel (a lattice of infinite height may make the real run() diverge) and carry C03's
+   hypotheses (lattice laws - discharged for every shipped type by C16 -, monotone program, validated plan). *)
 
 Print Assumptions c13_idempotent. Print Assumptions c13_incremental. Print Assumptions c13_run_depends_on_rows_only. Print Assumptions c13_idempotent_with_aggregates.
+
+(* ================= lattice relations =================
+   Model: LatEngine/LatEval.v run_plan (C03): run() = update_indices (every index rebuilt from the rows; nothing else
+   of an earlier run survives, so the program value between runs IS its rows) followed by the SCCs.  Proofs:
+   LatEngine/{LatRBase,LatRerun,LatRExample}.v.  Reading guide as in Props/C03.v; input_ok = declared arities, lattice
+   columns hold lattice elements, AT MOST ONE ROW PER KEY in every lattice relation. *)
+From Coq Require Import Permutation.
+From AV Require Import LatEngine.LatSyntax LatEngine.LatEval LatEngine.LatPlan LatEngine.LatSem LatEngine.LatBase LatEngine.LatHead.
+From AV Require Import LatEngine.LatKeys LatEngine.LatScc LatEngine.LatMain LatEngine.LatVocab LatEngine.LatExample.
+From AV Require Import LatEngine.LatRBase LatEngine.LatRerun LatEngine.LatRExample.
+
+(* a second run() on the unmodified rows of a TERMINATED run changes nothing: every relation is the same list of rows -
+   the same number of rows, equal lattice values, even the same order *)
+Theorem c13_lattice_idempotent : forall (V : Type) (I : linterp V) islat lle jm shuffle swap_oracle arities P pl Rin fuel fuel' st1 st2,
+  veqb_ok I -> (forall r, islat r = true -> lat_laws (lle r) (jm r)) ->
+  (forall n l x, In x (shuffle n l) <-> In x l) ->
+  arities_functional arities -> no_agg P = true -> monotone_program I islat lle P ->
+  validate arities P pl = true -> lat_plan_ok islat arities pl = true ->
+  input_ok I islat lle arities Rin ->
+  run_plan I islat jm shuffle swap_oracle fuel pl Rin = Some st1 ->
+  run_plan I islat jm shuffle swap_oracle fuel' pl (l_rows st1) = Some st2 ->
+  forall r, l_rows st2 r = l_rows st1 r.
+Proof.
+  intros V I islat lle jm shuffle swap_oracle arities P pl Rin fuel fuel' st1 st2 H1 H2 H3 H4 H5 H6 H7 H8.
+  exact (lat_rerun_idempotent I H1 islat lle jm H2 shuffle H3 swap_oracle arities H4 P H5 H6 pl H7 H8 Rin fuel fuel' st1 st2).
+Qed.
+
+(* more generally: a run started from ANY legal rows that are closed under the rules changes nothing *)
+Theorem c13_lattice_closed_rows_unchanged : forall (V : Type) (I : linterp V) islat lle jm shuffle swap_oracle arities P pl R1 fuel st2,
+  veqb_ok I -> (forall r, islat r = true -> lat_laws (lle r) (jm r)) ->
+  (forall n l x, In x (shuffle n l) <-> In x l) ->
+  arities_functional arities -> no_agg P = true -> monotone_program I islat lle P ->
+  validate arities P pl = true -> lat_plan_ok islat arities pl = true ->
+  input_ok I islat lle arities R1 -> closedH I islat lle P (dbof R1) ->
+  run_plan I islat jm shuffle swap_oracle fuel pl R1 = Some st2 ->
+  forall r, l_rows st2 r = R1 r.
+Proof.
+  intros V I islat lle jm shuffle swap_oracle arities P pl R1 fuel st2 H1 H2 H3 H4 H5 H6 H7 H8.
+  exact (closed_run_unchanged I H1 islat lle jm H2 shuffle H3 swap_oracle arities H4 P H5 H6 pl H7 H8 R1 fuel st2).
+Qed.
+
+(* monotone re-runs.  lub_of A D B: the facts B are a least directed upper bound of A and D together ("A with the facts
+   D joined in": raising lattice values in place by join, pushing rows with new keys - into any relation, derived ones
+   included).  run; join Delta into the rows; run  =  ONE fresh run on the input with Delta joined in: the same rows in
+   every relation, and for lattice relations the same number of rows.  Guard: the modified rows are a legal input. *)
+Theorem c13_lattice_incremental : forall (V : Type) (I : linterp V) islat lle jm shuffle swap_oracle arities P pl
+    Rin fuel st1 (Delta : db) R1' Rall fuel2 fuel3 st2 st3,
+  veqb_ok I -> (forall r, islat r = true -> lat_laws (lle r) (jm r)) ->
+  (forall n l x, In x (shuffle n l) <-> In x l) ->
+  arities_functional arities -> no_agg P = true -> monotone_program I islat lle P ->
+  validate arities P pl = true -> lat_plan_ok islat arities pl = true ->
+  input_ok I islat lle arities Rin -> run_plan I islat jm shuffle swap_oracle fuel pl Rin = Some st1 ->
+  input_ok I islat lle arities R1' -> lub_of I islat lle (dbof (l_rows st1)) Delta (dbof R1') ->
+  input_ok I islat lle arities Rall -> lub_of I islat lle (dbof Rin) Delta (dbof Rall) ->
+  run_plan I islat jm shuffle swap_oracle fuel2 pl R1' = Some st2 ->
+  run_plan I islat jm shuffle swap_oracle fuel3 pl Rall = Some st3 ->
+  (forall r t, In t (l_rows st2 r) <-> In t (l_rows st3 r)) /\
+  (forall r, islat r = true -> Permutation (l_rows st2 r) (l_rows st3 r)).
+Proof.
+  intros V I islat lle jm shuffle swap_oracle arities P pl Rin fuel st1 Delta R1' Rall fuel2 fuel3 st2 st3 H1 H2 H3 H4 H5 H6 H7 H8.
+  exact (lat_rerun_incremental I H1 islat lle jm H2 shuffle H3 swap_oracle arities H4 P H5 H6 pl H7 H8 Rin fuel st1 Delta R1' Rall fuel2 fuel3 st2 st3).
+Qed.
+
+(* ... for EVERY history run; modify; run; modify; run ... (hist Rall R: such a history leaves the rows R, and Rall is the
+   join of everything the caller ever put in) *)
+Theorem c13_lattice_history : forall (V : Type) (I : linterp V) islat lle jm shuffle swap_oracle arities P pl Rall R fuel st,
+  veqb_ok I -> (forall r, islat r = true -> lat_laws (lle r) (jm r)) ->
+  (forall n l x, In x (shuffle n l) <-> In x l) ->
+  arities_functional arities -> no_agg P = true -> monotone_program I islat lle P ->
+  validate arities P pl = true -> lat_plan_ok islat arities pl = true ->
+  hist I islat lle jm shuffle swap_oracle arities pl Rall R ->
+  run_plan I islat jm shuffle swap_oracle fuel pl Rall = Some st ->
+  (forall r t, In t (R r) <-> In t (l_rows st r)) /\ (forall r, islat r = true -> Permutation (R r) (l_rows st r)).
+Proof.
+  intros V I islat lle jm shuffle swap_oracle arities P pl Rall R fuel st H1 H2 H3 H4 H5 H6 H7 H8.
+  exact (lat_history_fresh I H1 islat lle jm H2 shuffle H3 swap_oracle arities H4 P H5 H6 pl H7 H8 Rall R fuel st).
+Qed.
+
+(* the two concrete caller operations.  Pushing rows F (into any relation) whose keys are new w.r.t. EVERY row present: *)
+Theorem c13_lattice_push : forall (V : Type) (I : linterp V) islat lle jm shuffle swap_oracle arities P pl Rin F fuel st1 fuel2 fuel3 st2 st3,
+  veqb_ok I -> (forall r, islat r = true -> lat_laws (lle r) (jm r)) ->
+  (forall n l x, In x (shuffle n l) <-> In x l) ->
+  arities_functional arities -> no_agg P = true -> monotone_program I islat lle P ->
+  validate arities P pl = true -> lat_plan_ok islat arities pl = true ->
+  input_ok I islat lle arities Rin -> run_plan I islat jm shuffle swap_oracle fuel pl Rin = Some st1 ->
+  input_ok I islat lle arities (appr (l_rows st1) F) ->
+  run_plan I islat jm shuffle swap_oracle fuel2 pl (appr (l_rows st1) F) = Some st2 ->
+  run_plan I islat jm shuffle swap_oracle fuel3 pl (appr Rin F) = Some st3 ->
+  (forall r t, In t (l_rows st2 r) <-> In t (l_rows st3 r)) /\
+  (forall r, islat r = true -> Permutation (l_rows st2 r) (l_rows st3 r)).
+Proof.
+  intros V I islat lle jm shuffle swap_oracle arities P pl Rin F fuel st1 fuel2 fuel3 st2 st3 H1 H2 H3 H4 H5 H6 H7 H8.
+  exact (lat_rerun_push I H1 islat lle jm H2 shuffle H3 swap_oracle arities H4 P H5 H6 pl H7 H8 Rin F fuel st1 fuel2 fuel3 st2 st3).
+Qed.
+
+(* raising the value of input row i of a lattice relation in place (join_mut with v) *)
+Theorem c13_lattice_raise : forall (V : Type) (I : linterp V) islat lle jm shuffle swap_oracle arities P pl Rin r i v fuel st1 fuel2 fuel3 st2 st3,
+  veqb_ok I -> (forall r, islat r = true -> lat_laws (lle r) (jm r)) ->
+  (forall n l x, In x (shuffle n l) <-> In x l) ->
+  arities_functional arities -> no_agg P = true -> monotone_program I islat lle P ->
+  validate arities P pl = true -> lat_plan_ok islat arities pl = true ->
+  input_ok I islat lle arities Rin -> run_plan I islat jm shuffle swap_oracle fuel pl Rin = Some st1 ->
+  islat r = true -> lle r v v -> (i < length (Rin r))%nat -> (exists n, arity_ok arities r n = true) ->
+  run_plan I islat jm shuffle swap_oracle fuel2 pl (raise_at I jm r i v (l_rows st1)) = Some st2 ->
+  run_plan I islat jm shuffle swap_oracle fuel3 pl (raise_at I jm r i v Rin) = Some st3 ->
+  (forall q t, In t (l_rows st2 q) <-> In t (l_rows st3 q)) /\
+  (forall q, islat q = true -> Permutation (l_rows st2 q) (l_rows st3 q)).
+Proof.
+  intros V I islat lle jm shuffle swap_oracle arities P pl Rin r i v fuel st1 fuel2 fuel3 st2 st3 H1 H2 H3 H4 H5 H6 H7 H8.
+  exact (lat_rerun_raise I H1 islat lle jm H2 shuffle H3 swap_oracle arities H4 P H5 H6 pl H7 H8 Rin r i v fuel st1 fuel2 fuel3 st2 st3).
+Qed.
+
+(* REFUTED outside the guard - a genuine misbehaviour of the code (LatRExample.v: remark + experiment crate replaying it
+   on the real code): pushing a row whose KEY is already present - here the key of a row DERIVED by the first run; the
+   fresh input is legal - leaves two rows for that key, among them the stale row, which a fresh run does not hold:
+   the re-run is NOT the fresh run on the union of the inputs and "one row per key" is lost.  update_indices never
+   merges rows of one key (the key index keeps the last, the other indices all of them). *)
+Theorem c13_lattice_dupkey_refuted :
+  exists st1 st2 st3,
+    sp_run dk_input = Some st1 /\ sp_run (appr (l_rows st1) dk_push) = Some st2 /\ sp_run (appr dk_input dk_push) = Some st3 /\
+    NoDup (map tkey (appr dk_input dk_push 1%nat)) /\
+    l_rows st2 1%nat = [[0; 1; 4]; [1; 2; 4]; [0; 2; 5]; [1; 2; 1]]%Z /\
+    l_rows st3 1%nat = [[1; 2; 1]; [0; 1; 4]; [0; 2; 5]]%Z /\
+    ~ NoDup (map tkey (l_rows st2 1%nat)) /\
+    ~ (forall t, In t (l_rows st2 1%nat) -> In t (l_rows st3 1%nat)).
+Proof. exact lat_rerun_dupkey_refuted. Qed.
+
+(* non-vacuity: the shortest-path program of c03_example_hypotheses (plan dumped from the real macro), its input is
+   legal, the model runs and a second run returns the same 25 distances *)
+Example c13_lattice_example_input : input_ok lv_interp sp_islat sp_lle sp_arities sp_input.
+Proof. exact sp_input_ok. Qed.
+Example c13_lattice_example_runs :
+  match sp_run sp_input with
+  | Some st1 => option_map (fun st2 => sp_obs (l_rows st2)) (sp_run (l_rows st1)) = Some (sp_obs (l_rows st1)) /\ length (l_rows st1 1%nat) = 25%nat
+  | None => False
+  end.
+Proof. exact sp_rerun_runs. Qed.
+
+Print Assumptions c13_lattice_idempotent. Print Assumptions c13_lattice_closed_rows_unchanged. Print Assumptions c13_lattice_incremental.
+Print Assumptions c13_lattice_history. Print Assumptions c13_lattice_push. Print Assumptions c13_lattice_raise.
+Print Assumptions c13_lattice_dupkey_refuted. Print Assumptions c13_lattice_example_input. Print Assumptions c13_lattice_example_runs.
